@@ -45,6 +45,14 @@ type Pet struct {
 	Toys   []Toy `gorm:"polymorphic:Owner"`
 }
 
+// Kennel owns at most one Toy through the polymorphic owner columns (has one, polymorphic). It is
+// migrated only by the association-mode driver.
+type Kennel struct {
+	ID   int64
+	Name string
+	Toy  *Toy `gorm:"polymorphic:Owner"`
+}
+
 type Lang struct {
 	Code string `gorm:"primaryKey"`
 	Name string
